@@ -96,6 +96,9 @@ impl Out {
     /// The property's own predicate, evaluated on the implementation alone, failed.
     pub fn oracle_fail(&mut self, what: String) {
         if self.oracle_failures.len() < 50 {
+            // also on stderr: if the code under test aborts the process later, the report of the
+            // crash still carries what had been found
+            eprintln!("ORACLE-FAIL {what} [case={}]", self.case_no);
             let n = self.case_no;
             self.oracle_failures.push(format!("{what} [case={n}]"));
         }
